@@ -559,6 +559,11 @@ impl<'a, B: BitmapSlice> VolatileSlice<'a, B> {
     where
         T: ByteValued,
     {
+        // Zero-sized elements name no bytes: there is nothing to copy (and nothing to divide by).
+        if size_of::<T>() == 0 {
+            return 0;
+        }
+
         // A fast path for u8/i8
         if size_of::<T>() == 1 {
             let total = buf.len().min(self.len());
@@ -638,6 +643,11 @@ impl<'a, B: BitmapSlice> VolatileSlice<'a, B> {
     where
         T: ByteValued,
     {
+        // Zero-sized elements name no bytes: there is nothing to copy (and nothing to divide by).
+        if size_of::<T>() == 0 {
+            return;
+        }
+
         // A fast path for u8/i8
         if size_of::<T>() == 1 {
             let total = buf.len().min(self.len());
@@ -1173,6 +1183,11 @@ where
     /// }
     /// ```
     pub fn copy_to(&self, buf: &mut [T]) -> usize {
+        // Zero-sized elements name no bytes; `offset_from` below requires a non-zero pointee size.
+        if size_of::<T>() == 0 {
+            return 0;
+        }
+
         // A fast path for u8/i8
         if size_of::<T>() == 1 {
             let source = self.to_slice();
